@@ -16,7 +16,8 @@ ROUTES = {
                 ("https://www.youtube.com/embed/", ""), ("https://www.youtube.com/shorts", ""), ("https://www.youtube.com/channel", ""),
                 ("https://www.youtube.com/user/", "/videos"), ("https://www.youtube.com/c", ""), ("https://www.youtube.com/", ""),
                 ("https://www.youtube.com/#", ""), ("https://www.youtube.com/watch?v=abcdefghij", ""), ("https://www.youtube.com/signin?next=%2Fwatch%3Fv%3D", ""),
-                ("http://youtube.com/v/", ""), ("https://www.youtube.com/@", "")],
+                ("http://youtube.com/v/", ""), ("https://www.youtube.com/@", ""),
+                ("https://www.youtube.com/c/", "atch"), ("https://www.youtube.com/@", "ATCH"), ("https://www.youtube.com/", "atch/"), ("https://www.youtube.com/", "eed")],
     "twitter": [("https://twitter.com/", ""), ("https://twitter.com/i", ""), ("https://twitter.com/i/lists", ""), ("https://x.com/a/status", ""),
                 ("https://twitter.com/#!", ""), ("https://twitter.com/#!/i", ""), ("https://twitter.com/", "/status/1"), ("twitter.com/home", "")],
     "instagram": [("https://www.instagram.com/", ""), ("https://www.instagram.com/p", ""), ("https://www.instagram.com/p/", "/x"), ("https://www.instagram.com/reel/", ""),
@@ -28,7 +29,7 @@ ROUTES = {
                ("https://www.google.com/amp/s/", ""), ("https://x.cdn.ampproject.org/c/s/", "")],
 }
 BOUNDS = {
-    "quick": "6 platforms, 63 route skeletons in total (every route word of the property's vocabulary, truncated and complete) x every hole string of length 0..1 (0..2 on every third route) over all code points; "
+    "quick": "6 platforms, 67 route skeletons in total (every route word of the property's vocabulary, truncated and complete) x every hole string of length 0..1 (0..2 on every third route) over all code points; "
              "every total function of the platform's family on each; convert_* on the facebook / telegram routes; record validity and round trips; fully symbolic strings of length 0..2 for every function",
     "thorough": "holes of length 0..3, free strings 0..4",
 }
